@@ -22,7 +22,7 @@ SPEC_FUNCS = {"implies", "iff", "old", "forall", "exists", "isdict", "islist", "
               "istuple", "iscallable", "seq_eq_upto", "strlen", "lower_ascii", "keys_subset", "real",
               "list_eq", "is_exc", "no_new_keys", "trunc", "AP", "RP", "EPT", "INSTANT", "NOW", "RFC3339_OK", "rmax", "rmin",
               "istrue", "NAIVE", "unchanged_except", "isemptydict", "isfalse",
-              "prefix_unchanged"}
+              "prefix_unchanged", "isbytes"}
 
 BUILTIN_FUNCS = {
     "len", "isinstance", "int", "str", "float", "bool", "min", "max", "abs", "dict", "list", "tuple", "set",
